@@ -26,7 +26,7 @@ ASSUMPTIONS = [
     "identified specialization / alternate / membership relations are not generated: PROV-O has no qualified form for them, so they are not PROV-O-expressible",
 ]
 REQUIRED_CLASSES = {"all": ["rel:identified", "rel:anon_qualified", "rel:anon_plain", "has:bundle", "value:lang", "value:dt",
-                            "value:qn", "value:uri", "value:bool", "merged_identifier"]}
+                            "value:qn", "value:uri", "value:bool", "merged_identifier", "with_default_namespace_equal_to_declared", "serializer_object_reused_after_modification"]}
 
 NSS = [("ex", "http://example.org/ns/"), ("foo", "http://foo.example/x#"), ("urn", "urn:test:")]
 NSS = [("ex", "http://example.org/ns/"), ("foo", "http://foo.example/x#"), ("bar", "http://bar.example/")]
@@ -123,7 +123,8 @@ def _recipe(draw):
                 formal.pop(a, None)
         ident = None if o[3] is None else _name(draw, ["r4", "r5"])
         ops.append(["rec", o[1], o[2], ident, formal, draw(_attrs(for_relation=True)), o[6]])
-    return {"profile": "rdf", "ops": ops}
+    extras = {"default_ns": draw(st.sampled_from([None, None, 0, 1])), "reuse_serializer": draw(st.integers(0, 3)) == 0}
+    return {"profile": "rdf", "ops": ops, "extras": extras}
 
 
 def strategy(tier):
@@ -291,6 +292,12 @@ def check(case, ctx):
     used = sanitise(case, ctx)
     b = build(used)
     d = b.doc
+    extras = case.get("extras") or {}
+    if extras.get("default_ns") is not None:
+        # a default namespace equal to one that is ALSO declared under a prefix: every name still lives in a namespace
+        # declared under a non-empty prefix on the document
+        d.set_default_namespace(NSS[extras["default_ns"]][1])
+        ctx.count("with_default_namespace_equal_to_declared")
     quals = plain = 0
     for si, rec, m in b.records:
         if spec.KINDS[m["kind"]][2]:
@@ -314,13 +321,31 @@ def check(case, ctx):
     if len(b.scopes) > 1:
         ctx.count("has:bundle")
     ctx.nontrivial((quals and plain) or len(b.scopes) > 1)
+    reused = None
+    if extras.get("reuse_serializer"):
+        # one serializer object used before AND after a modification of the document
+        import io
+        from prov import serializers
+        from prov.identifier import Namespace, QualifiedName
+        reused = serializers.get("rdf")(d)
+        try:
+            reused.serialize(io.BytesIO())
+        except Exception as e:
+            return [exc_item(e, "serialize")]
+        d.entity(QualifiedName(Namespace(NSS[0][0], NSS[0][1]), "addedLater"), {QualifiedName(Namespace(NSS[0][0], NSS[0][1]), "k"): "late"})
+        ctx.count("serializer_object_reused_after_modification")
     try:
         u = d.unified()
     except Exception as e:  # the construction keeps formal arguments equal: unified() must not refuse
         return [exc_item(e, "unified")]
     want = as_sets(canon(u))
     try:
-        text = d.serialize(format="rdf")
+        if reused is not None:
+            buf = io.BytesIO()
+            reused.serialize(buf)
+            text = buf.getvalue().decode("utf-8")
+        else:
+            text = d.serialize(format="rdf")
     except Exception as e:
         return [exc_item(e, "serialize")]
     try:
